@@ -152,10 +152,10 @@ pub struct Outcome {
     pub tie_branchings: u64,
 }
 
-pub const TIE_REL: f64 = 1e-9;
 const NODE_CAP: u64 = 400_000;
 
 struct Ex {
+    tie_rel: f64,
     link: Link,
     stop: Stop,
     n: usize,
@@ -205,15 +205,17 @@ impl Ex {
                 }
             }
         }
-        if vmin < 0.0 {
+        if vmin < 0.0 && self.link.on_squares() {
+            // a squared dissimilarity went negative: the height sqrt(v) does not exist
             self.out.degenerate = true;
             return;
         }
-        let tie = TIE_REL * vmin.abs().max(1e-300);
+        let tie_rel = self.tie_rel;
+        let tie = tie_rel * vmin.abs().max(1e-300);
         let sq = self.link.on_squares();
         let height = move |v: f64| if sq { v.sqrt() } else { v };
         let hmin = height(vmin);
-        if hmin < prev_h - TIE_REL * prev_h.abs().max(1.0) {
+        if hmin < prev_h - tie_rel * prev_h.abs().max(1.0) {
             self.out.inversion = true;
         }
         let mut cands: Vec<(usize, usize)> = Vec::new();
@@ -232,7 +234,7 @@ impl Ex {
                 // heights that are bit-identical to what any correct implementation computes:
                 // entries of the input (Single / Complete always; any merge of two singletons)
                 let exact = self.link.heights_are_input_entries() || (st.members[a].len() == 1 && st.members[b].len() == 1);
-                if !exact && (h - t).abs() <= TIE_REL * t.abs().max(1.0) {
+                if !exact && (h - t).abs() <= tie_rel * t.abs().max(1.0) {
                     self.out.near_threshold = true;
                 }
                 let below = if inclusive { h <= t } else { h < t };
@@ -255,8 +257,8 @@ impl Ex {
 }
 
 /// All partitions the agglomeration of `dis` (symmetric, zero diagonal) may end with.
-pub fn admissible(link: Link, dis: &[Vec<f64>], stop: Stop) -> Outcome {
-    let mut ex = Ex { link, stop, n: dis.len(), out: Outcome::default(), visited: HashSet::new() };
+pub fn admissible(link: Link, dis: &[Vec<f64>], stop: Stop, tie_rel: f64) -> Outcome {
+    let mut ex = Ex { tie_rel, link, stop, n: dis.len(), out: Outcome::default(), visited: HashSet::new() };
     let st = init(link, dis);
     ex.go(&st, f64::NEG_INFINITY);
     ex.out
